@@ -473,6 +473,22 @@ CHAIN_POOL = [
 ]
 
 
+# the chain sits at depth 0, 1, 2 or 3 below roots of every node class (unary, call, if-else, comparison, non-commutative operator)
+CHAIN_CONTEXTS = [
+    lambda e: e,
+    lambda e: ("u", "-", e),
+    lambda e: ("u", "-", ("u", "-", e)),
+    lambda e: ("f", "abs", ("u", "-", e)),
+    lambda e: ("f", "max", ("c", 0), ("u", "-", e)),
+    lambda e: ("f", "min", ("f", "abs", e), ("v", "y")),
+    lambda e: ("if", ("b", "<", e, ("v", "y")), ("c", 1), ("c", 0)),
+    lambda e: ("if", ("v", "y"), ("v", "x"), ("u", "-", e)),
+    lambda e: ("if", ("f", "abs", ("u", "-", e)), ("c", 1), ("c", 0)),
+    lambda e: ("b", "**", e, ("c", 2)),
+    lambda e: ("b", "-", ("c", 2), ("f", "abs", ("u", "-", e))),
+]
+
+
 def _chain_worker(chunk):
     out = []
     grid = (-2, -1, 0, 1, 2, 3)
@@ -480,6 +496,7 @@ def _chain_worker(chunk):
         base_sig = None
         base_txt = None
         n = 0
+        ctx_base: Dict[int, Tuple[str, str]] = {}
         for perm in itertools.permutations(operands):
             for e in bracketings(list(perm), op):
                 t = txt(e)
@@ -489,6 +506,15 @@ def _chain_worker(chunk):
                     base_sig, base_txt = s, t
                 elif s != base_sig:
                     out.append(("ac-rearrangement-changes-signature", base_txt, t))
+                if len(operands) <= 3:
+                    for ci, wrap in enumerate(CHAIN_CONTEXTS[1:], 1):
+                        tw = txt(wrap(e))
+                        sw = impl_sig(tw)
+                        n += 1
+                        if ci not in ctx_base:
+                            ctx_base[ci] = (sw, tw)
+                        elif sw != ctx_base[ci][0]:
+                            out.append(("ac-rearrangement-changes-signature", ctx_base[ci][1], tw))
         # mutants of the first form
         e0 = next(bracketings(list(operands), op))
         v0 = sem_vec(e0, ("x", "y", "z"), grid)
